@@ -267,7 +267,7 @@ func epStrat(c *RunCtx, cfg stratCfg) *Result {
 }
 
 func runC15(c *RunCtx) {
-	for v := 0; v < c.Q(400, 4000); v++ {
+	for v := 0; v < c.Q(1200, 6000); v++ {
 		c.Program(fmt.Sprintf("strategy/%d", v), func(p *Prog) {
 			cfg := drawStrat(p.Rng)
 			o := ExploreOpts{Base: 2}
